@@ -729,6 +729,12 @@ class Visitor(ast.NodeVisitor):
 
         assert result is not PLACEHOLDER
 
+        if isinstance(result, FirstExceptionInAll):
+            # The first exception is what we want to represent for this node, but the enclosing expressions
+            # have to be re-computed with the value which Python computes for the failed quantifier.
+            self.recomputed_values[node] = result
+            return False
+
         self.recomputed_values[node] = result
         if inspect.iscoroutine(result):
             raise ValueError(
